@@ -234,7 +234,9 @@ def validate(c, scripts, obs, label, mode="c10"):
 def run_scripts(c, binp, scripts, label, mode="c10"):
     """mode c10: public service.New/Start/Shutdown (the driver shuts down after a failed Start, as otelcol does);
        mode c10col: the same lifetimes through the real otelcol.Collector.Run / Shutdown (configuration document,
-       resolver, validation, and the collector's own shutdown-after-failed-start)."""
+       resolver, validation, and the collector's own shutdown-after-failed-start);
+       mode c10colreload: as c10col, but the scripted configuration is the second one of the collector: it is brought
+       up by a configuration reload after a warm-up configuration of no-op components."""
     inp = os.path.join(c.work, "scripts_%s.ndjson" % label)
     out = os.path.join(c.work, "calls_%s.ndjson" % label)
     vlib.write_ndjson(inp, [to_go(s) for s in scripts])
@@ -323,6 +325,10 @@ def run(c):
         colscripts = (fs if len(fs) <= ccap else c.rng.sample(fs, ccap)) + c.rng.sample(rest, min(len(rest), ccap))
         cs, co = run_scripts(c, binp, colscripts, "col%d" % k, mode="c10col")
         total += len(cs)
+        # ... and once more as the SECOND service of a collector, brought up by a configuration reload
+        rs, ro = run_scripts(c, binp, colscripts, "colre%d" % k, mode="c10colreload")
+        total += len(rs)
+        nontrivial += sum(1 for s in rs if s["failStart"] or s["failShut"])
         nontrivial += sum(1 for s in cs if s["failStart"] or s["failShut"])
         nontrivial += sum(1 for s in ss if s["failStart"] or s["failShut"])
         pick = [i for i, s in enumerate(ss) if s["failStart"] and s["conns"]]
@@ -363,7 +369,8 @@ CHECK_DEADLOCK FALSE
         half = len(scripts) // 2
         ss, oo = run_scripts(c, binp, scripts[:half], "sim%d" % seed)
         cs, co = run_scripts(c, binp, scripts[half:], "simcol%d" % seed, mode="c10col")
-        ss = ss + cs
+        rs, ro = run_scripts(c, binp, scripts[half:], "simcolre%d" % seed, mode="c10colreload")
+        ss = ss + cs + rs
         total += len(ss)
         nontrivial += sum(1 for s in ss if s["failStart"] or s["failShut"])
     c.evaluations = total
